@@ -1,5 +1,6 @@
 """C16 - trash-put's exit status tells the truth and arguments are handled independently."""
 import copy
+import itertools
 import os
 import re
 
@@ -187,10 +188,56 @@ def run(run, thorough):
         judge(run, scn, metas[i], res, alone)
         jobs.append(('put', 'x', res['steps'][0], {'scenario': scn}))
     engine.run_monitors(run, 'put-monitor', jobs, 'the put-discipline monitor (Coq) rejects the implementation trace', 'put-discipline', silent=True)
+    # directed: one of three arguments vanishes (somebody else removes it) between the creation of its .trashinfo and the move - for
+    # the first, the second and the third in turn, with and without -f.  That argument failed: exit status not 0, it is named, no
+    # .trashinfo of it is left, and the other two are trashed as if it had not been there
+    for opts, which in itertools.product(([], ['-f'], ['-v']), (0, 1, 2)):
+        names = ['va', 'vb', 'vc']
+        tree = [['d', '/home/u', 0o755]] + [['f', '/home/u/w/' + n, 'content of ' + n] for n in names] + scen.canary()
+        scn = {'tree': tree, 'mounts': [], 'cwd': '/home/u/w', 'uid': 0, 'env': {'HOME': '/home/u', 'TRASH_VOLUMES': '/'},
+               'steps': [{'cmd': 'put', 'argv': opts + ['--'] + names, 'now': [2024, 5, 6, 7, 8, 9, 0]}]}
+        base = sandbox.execute(scn)
+        if not base.get('steps'):
+            continue
+        muts = base['steps'][0].get('muts', [])
+        writes = [i for i, m in enumerate(muts) if m == 'write']
+        if len(writes) != 3:
+            continue
+        s2 = copy.deepcopy(scn)
+        s2['steps'][0]['plan'] = {'midfs': {'after': writes[which] + 1, 'ops': [['remove', '/home/u/w/' + names[which]]]}}
+        r = sandbox.execute(s2)
+        if not r.get('steps'):
+            continue
+        judge_vanish(run, s2, r, names, which, 'vanishing-argument')
+        run.nontriv(('vanish', tuple(opts), which, r['steps'][0]['exit']))
     if out:
         run.sample({'level': 'state', 'argv': [esc(a) for a in out[0][0]['steps'][0]['argv']], 'kinds': [a['kind'] for a in metas[idx[id(out[0][0])]]['args']]})
 
 
+def judge_vanish(run, s2, r, names, which, section):
+    run.count(section)
+    o = r['steps'][0]
+    pairs, strays, orphans = putlib.new_trash_items(r['before'], o['after'])
+    others_ok = all(('/home/u/w/' + n) not in o['after'] for i, n in enumerate(names) if i != which) and len(pairs) == len(names) - 1
+    if o['exit'] == 0 or names[which] not in o['stderr'] or strays or not others_ok or o['exc'] is not None:
+        run.fail('oracle', 'an argument vanished before its move: it must be reported as failed (exit status, diagnostic naming it), leave no '
+                 '.trashinfo, and the other arguments must be trashed all the same',
+                 {'scenario': s2, 'exit': o['exit'], 'stderr': o['stderr'][-400:], 'strays': strays, 'pairs': len(pairs), 'exc': o['exc']},
+                 key='vanished-argument-not-reported', section=section)
+
+
 def replay(run, payload):
+    scn = (payload.get('case') or {}).get('scenario') or {}
+    plan = (scn.get('steps') or [{}])[0].get('plan') or {}
+    ops = (plan.get('midfs') or {}).get('ops') or []
+    if payload.get('key') == 'vanished-argument-not-reported' or (ops and ops[0][0] == 'remove' and scn.get('cwd') == '/home/u/w'):
+        av = scn['steps'][0]['argv']
+        names = av[av.index('--') + 1:]
+        gone = os.path.basename(ops[0][1])
+        r = sandbox.execute(scn)
+        if r.get('steps') and gone in names:
+            print('trash-put', av, 'exit', r['steps'][0]['exit'], 'stderr', esc(r['steps'][0]['stderr'][-300:]))
+            judge_vanish(run, scn, r, names, names.index(gone), 'replay')
+        return
     import p_c01
     p_c01.replay(run, payload)
